@@ -58,6 +58,19 @@ CLAIMS = {
             "custom MIR rules: guard liveness across calls incl. unwind edges, who-may-call, provenance of map keys, "
             "constant evaluation of the id counter",
             "3/C03"),
+    "C04": ("Decides on built MIR: SpanCtxt::new_child returns, on every path, SpanCtxt::new(self.trace_id.or_else("
+            "random), self.span_id, SpanId::random) (no early return that drops an incoming trace id); new_root; the "
+            "constructor and accessors are field-faithful; SpanCtxt::current pulls the constants trace_id / "
+            "span_parent / span_id into the like-named parameters and Props for SpanCtxt emits each field under the "
+            "same constant (writer/reader agreement); TraceId/SpanId wrap NonZero and are never built unchecked; "
+            "SpanGuard::new derives the child of SpanCtxt::current(&ctxt), shows the filter ids + ambient props and "
+            "stores the child; push_ctxt pushes ids only on the enabled edge and opens a disabled frame otherwise; "
+            "the begin-span hook passes rt.ctxt()/clock()/rng(), completion hooks emit with the runtime's ctxt; the "
+            "typed TraceId/SpanId fast path of the thread-local buffer; the RAII frame bracket incl. unwind (ids "
+            "revert when a span ends). Not decided: id distinctness (rng), schedules beyond the per-poll bracket.",
+            "custom MIR provenance rules (argument origins, constant keys vs field names, guarded calls, guard "
+            "liveness incl. unwind)",
+            "3/C04"),
 }
 
 REASONS_NOT_YET = "check not built yet (build in progress; DESIGN.md section 3 lists the planned rules)"
